@@ -5,6 +5,7 @@ CONSTANTS MaxSize = 1
  MaxAtoms = 4
  AtomKinds = {"A", "L"}
  LongKinds = {"A", "L", "E"}
+ DeclAtoms = 2
  Variants <- VariantsQuick
  ExactOccursCheck = TRUE
  AnnotVarCheck = TRUE
